@@ -1,4 +1,32 @@
-(* C18 - placeholder statement file, replaced below *)
-From VJ Require Import Model.Str.
-Theorem C18_placeholder : True. Proof. exact I. Qed.
-Print Assumptions C18_placeholder.
+(* C18 - parameter defaults become runtime prop defaults without changing them. Statements only. *)
+From VJ Require Import Model.Str Model.Json Model.Ast Model.State Model.Util Model.Types Lemmas.TypesProofs.
+
+(* literals are emitted as written; any other expression through a factory `() => e`;
+   a shorthand `{ x }` through `() => x` *)
+Theorem C18_static_forms : forall key value k sy c o,
+  (lit_prop_name key = Some k -> is_lit value = true -> static_default (KV key value) = Some (k, value))
+  /\ (lit_prop_name key = Some k -> is_lit value = false -> static_default (KV key value) = Some (k, mk_arrow [] value))
+  /\ static_default (Ident sy c o) = Some (IdName sy, mk_arrow [] (Ident sy c o)).
+Proof.
+  intros. split; [apply static_default_literal|]. split; [apply static_default_expr|apply static_default_shorthand].
+Qed.
+Print Assumptions C18_static_forms.
+
+(* a Function-typed prop receives the written value itself, every other type keeps the factory *)
+Theorem C18_function_prop : forall v t d,
+  unwrap_function_default [Some (s_ "Function")] (mk_arrow [] v) = match v with Block _ _ => mk_arrow [] v | _ => v end
+  /\ (sq "Function" t = false -> unwrap_function_default [Some t] d = d).
+Proof. intros. split; [apply function_prop_gets_written_value|apply other_prop_keeps_factory]. Qed.
+Print Assumptions C18_function_prop.
+
+(* quoted and unquoted spellings of a key match in both directions *)
+Theorem C18_key_spellings : forall a w,
+  default_matches (IdName a) (Str a w) = true /\ default_matches (Str a w) (IdName a) = true.
+Proof. exact default_matches_quoted. Qed.
+Print Assumptions C18_key_spellings.
+
+(* a computed identifier key or a spread makes the whole default object dynamic (mergeDefaults) *)
+Theorem C18_dynamic_forms : forall sy c o v e ps,
+  static_default (KV (Computed (Ident sy c o)) v) = None /\ static_defaults (Spread e :: ps) = None.
+Proof. intros. split; reflexivity. Qed.
+Print Assumptions C18_dynamic_forms.
